@@ -215,10 +215,18 @@ class Projector:
     return -idx
 
 
+_NAME_IDS = {}
+
+
 def _slot_of(name):
+  """Argument key -> abstract slot: s<k> -> k, positional index i -> 100 + i, other names -> 200+."""
   if isinstance(name, str) and name[:1] == 's' and name[1:].isdigit():
     return int(name[1:])
-  return ['name', name]
+  if isinstance(name, int) and not isinstance(name, bool):
+    return 100 + name
+  if isinstance(name, str):
+    return _NAME_IDS.setdefault(name, 200 + len(_NAME_IDS))
+  return ['name', repr(name)]
 
 
 def _key_of(k):
